@@ -12,7 +12,7 @@ GL5  LruIteTable::hash is a function of (f, g, h) only.
 from . import mir, canon
 from .base import inst, OK, VIOLATION, UNDECIDED, strip, gamma_arms, verdict_of, errtext
 from .facts import CheckerError
-from .mir import show
+from .mir import show, strip_refs
 
 
 def rename_params(t, m):
@@ -163,6 +163,27 @@ def gl2(prog, getfn):
                 for y in mir.subterms(("t",) + tuple(x[2])):
                     if y[0] == "field" and strip(y[1]) == ("param", 1):
                         reads.append((x[3][0], y[2]))
+                # a private slot helper handed the table itself (`self.slot(hash)`): the fields its body reads
+                if (x[1].local or x[1].res_local) and x[1].name not in ("grow", "insert"):
+                    for i_, a_ in enumerate(x[2]):
+                        if strip_refs(a_) != ("param", 1):
+                            continue
+                        for g in prog.resolve(x[1]):
+                            if "{closure" in g.npath:
+                                continue
+                            got = set()
+
+                            def visit(z, got=got, i_=i_):
+                                if z[0] == "field" and isinstance(z[1], tuple) and strip_refs(z[1]) == ("param", i_ + 1):
+                                    got.add(z[2])
+                            gt = g.terms
+                            for cs2 in gt.calls:
+                                for a2 in cs2.args:
+                                    mir.walk(a2, visit)
+                            if gt.ret is not None:
+                                mir.walk(gt.ret, visit)
+                            for fld in got:
+                                reads.append((x[3][0], fld))
         if not reads:
             errs.append("?the slot expression reads no field of the table through a call")
         for cs in te.calls:
